@@ -28,7 +28,7 @@ ANCHORS = ['classes:PaneBase.__init_subclass__', 'classes:PaneBase.__class_getit
            'classes:PaneOptions.replace']
 MIN_COUNTERS = {'quick': {'hierarchies': 2500, 'signature_checks': 2500, 'stdlib_mirror_checks': 2000, 'generic_hierarchies': 1200,
                           'substituted_field_conversions': 8000, 'option_inheritance_checks': 2500, 'redeclared_fields': 800,
-                          'custom_inherited_checks': 300, 'inner_generic_checks': 2000}}
+                          'custom_inherited_checks': 300, 'inner_generic_checks': 2000, 'plain_subclass_field_checks': 800, 'mixin_first_classes': 200}}
 
 TVS = {n: t.TypeVar(n) for n in ('T', 'U', 'V', 'W')}
 
